@@ -20,7 +20,7 @@ func paramEntries() []*entry {
 	V := func(label string, mk func(w *world, g *gen) any) value { return value{label, mk} }
 	qa := func() []uint64 { return uni.Primes(4, 30, 5) }
 	return []*entry{
-		{name: "rlwe.Parameters", heavy: true, vals: []value{
+		{name: "rlwe.Parameters", zero: Z[rlwe.Parameters](), heavy: true, vals: []value{
 			V("A", func(w *world, g *gen) any { p := w.pA; return &p }),
 			V("C-noP", func(w *world, g *gen) any { p := w.pC; return &p }),
 			V("B-N32", func(w *world, g *gen) any { p := w.pB; return &p }),
@@ -31,7 +31,7 @@ func paramEntries() []*entry {
 				return &p
 			}),
 		}},
-		{name: "rlwe.ParametersLiteral", heavy: true, vals: []value{
+		{name: "rlwe.ParametersLiteral", zero: Z[rlwe.ParametersLiteral](), heavy: true, vals: []value{
 			V("primes", func(w *world, g *gen) any {
 				return &rlwe.ParametersLiteral{LogN: 4, Q: qa()[:3], P: qa()[3:], NTTFlag: true}
 			}),
@@ -44,8 +44,8 @@ func paramEntries() []*entry {
 			}),
 			V("minimal", func(w *world, g *gen) any { return &rlwe.ParametersLiteral{LogN: 5, Q: uni.Primes(5, 45, 1)} }),
 		}},
-		{name: "bgv.Parameters", heavy: true, vals: []value{
-			V("A-t97", func(w *world, g *gen) any { p := w.bgvA; return &p }),
+		{name: "bgv.Parameters", zero: Z[bgv.Parameters](), heavy: true, vals: []value{
+			V("A-t97", func(w *world, g *gen) any { p := w.getBgvA(); return &p }),
 			V("noP-t193-custom-dist", func(w *world, g *gen) any {
 				p := must(bgv.NewParametersFromLiteral(bgv.ParametersLiteral{LogN: 4, Q: uni.Primes(4, 55, 2), PlaintextModulus: 193, Xs: ring.Ternary{H: 4}}))
 				return &p
@@ -55,7 +55,7 @@ func paramEntries() []*entry {
 				return &p
 			}),
 		}},
-		{name: "bgv.ParametersLiteral", heavy: true, vals: []value{
+		{name: "bgv.ParametersLiteral", zero: Z[bgv.ParametersLiteral](), heavy: true, vals: []value{
 			V("primes", func(w *world, g *gen) any {
 				return &bgv.ParametersLiteral{LogN: 4, Q: qa()[:3], P: qa()[3:], PlaintextModulus: 97}
 			}),
@@ -66,8 +66,8 @@ func paramEntries() []*entry {
 				return &bgv.ParametersLiteral{LogN: 5, Q: uni.Primes(5, 45, 1), PlaintextModulus: 193}
 			}),
 		}},
-		{name: "ckks.Parameters", heavy: true, vals: []value{
-			V("A-scale20", func(w *world, g *gen) any { p := w.ckksA; return &p }),
+		{name: "ckks.Parameters", zero: Z[ckks.Parameters](), heavy: true, vals: []value{
+			V("A-scale20", func(w *world, g *gen) any { p := w.getCkksA(); return &p }),
 			V("CI-noP", func(w *world, g *gen) any {
 				p := must(ckks.NewParametersFromLiteral(ckks.ParametersLiteral{LogN: 4, Q: uni.Primes(5, 40, 2), RingType: ring.ConjugateInvariant, LogDefaultScale: 30, Xs: ring.Ternary{H: 4}}))
 				return &p
@@ -77,7 +77,7 @@ func paramEntries() []*entry {
 				return &p
 			}),
 		}},
-		{name: "ckks.ParametersLiteral", heavy: true, vals: []value{
+		{name: "ckks.ParametersLiteral", zero: Z[ckks.ParametersLiteral](), heavy: true, vals: []value{
 			V("primes", func(w *world, g *gen) any {
 				return &ckks.ParametersLiteral{LogN: 4, Q: qa()[:3], P: qa()[3:], LogDefaultScale: 20}
 			}),
@@ -89,16 +89,16 @@ func paramEntries() []*entry {
 				return &ckks.ParametersLiteral{LogN: 5, Q: uni.Primes(5, 45, 1), LogDefaultScale: 30}
 			}),
 		}},
-		{name: "ring.Ring", heavy: true, vals: []value{
+		{name: "ring.Ring", zero: Z[ring.Ring](), heavy: true, vals: []value{
 			V("N16-3primes", func(w *world, g *gen) any { return must(ring.NewRing(16, qa()[:3])) }),
 			V("N8-1prime", func(w *world, g *gen) any { return must(ring.NewRing(8, uni.Primes(3, 20, 1))) }),
 			V("N16-CI-2primes", func(w *world, g *gen) any { return must(ring.NewRingConjugateInvariant(16, uni.Primes(5, 40, 2))) }),
 		}},
-		{name: "ring.Type", vals: []value{
+		{name: "ring.Type", zero: Z[ring.Type](), vals: []value{
 			V("standard", func(w *world, g *gen) any { t := ring.Standard; return &t }),
 			V("conjugate-invariant", func(w *world, g *gen) any { t := ring.ConjugateInvariant; return &t }),
 		}},
-		{name: "dft.MatrixLiteral", vals: []value{
+		{name: "dft.MatrixLiteral", zero: Z[dft.MatrixLiteral](), vals: []value{
 			V("encode", func(w *world, g *gen) any {
 				return &dft.MatrixLiteral{Type: dft.HomomorphicEncode, LogSlots: 3, LevelQ: 2, LevelP: 1, Levels: []int{1, 1}, Format: dft.RepackImagAsReal,
 					Scaling: new(big.Float).SetPrec(128).SetFloat64(0.125), BitReversed: true, LogBSGSRatio: 1}
@@ -108,7 +108,7 @@ func paramEntries() []*entry {
 			}),
 			V("zero-value", func(w *world, g *gen) any { return &dft.MatrixLiteral{} }),
 		}},
-		{name: "mod1.ParametersLiteral", vals: []value{
+		{name: "mod1.ParametersLiteral", zero: Z[mod1.ParametersLiteral](), vals: []value{
 			V("cos", func(w *world, g *gen) any {
 				return &mod1.ParametersLiteral{LevelQ: 5, LogScale: 40, Mod1Type: mod1.CosDiscrete, Scaling: 0.25, LogMessageRatio: 8, K: 12, Mod1Degree: 30, DoubleAngle: 3, Mod1InvDegree: 7}
 			}),
@@ -117,7 +117,7 @@ func paramEntries() []*entry {
 			}),
 			V("zero-value", func(w *world, g *gen) any { return &mod1.ParametersLiteral{} }),
 		}},
-		{name: "bootstrapping.ParametersLiteral", vals: []value{
+		{name: "bootstrapping.ParametersLiteral", zero: Z[bootstrapping.ParametersLiteral](), vals: []value{
 			V("zero-value", func(w *world, g *gen) any { return &bootstrapping.ParametersLiteral{} }),
 			V("all-but-dist", func(w *world, g *gen) any {
 				return &bootstrapping.ParametersLiteral{LogN: ip(8), LogP: []int{61, 61}, LogSlots: ip(6),
@@ -130,7 +130,7 @@ func paramEntries() []*entry {
 			}),
 			V("few", func(w *world, g *gen) any { return &bootstrapping.ParametersLiteral{LogSlots: ip(3), K: ip(4)} }),
 		}},
-		{name: "bootstrapping.Parameters", heavy: true, vals: []value{
+		{name: "bootstrapping.Parameters", zero: Z[bootstrapping.Parameters](), heavy: true, vals: []value{
 			V("LogN8-default", func(w *world, g *gen) any { p := btpParams(8, bootstrapping.ParametersLiteral{}); return &p }),
 			V("LogN8-iterations-sparse", func(w *world, g *gen) any {
 				p := btpParams(8, bootstrapping.ParametersLiteral{LogSlots: ip(5), EphemeralSecretWeight: ip(0),
